@@ -40,6 +40,16 @@ def step (σ : St) (op obs : List String) : St × List Msg :=
     let (c, n) := frac ((kv [has] "has").getD "0/1")
     let pf := if c ≠ n then [Msg.propfail "full_state_superset" "rejoin-incomplete" s!"the restarted instance holds {c} of {n} updates"] else []
     (σ, pf ++ expectEq "rejoin.members" (toString σ.n) ((kv [members] "members").getD "?") ++ [.tag "rejoin"])
+  | ["fact", _], [v] =>
+    (σ, (if v = "ok" then [] else [Msg.propfail "full_state_superset" "join-before-state-registration"
+          s!"app/app.go: {v} — the states must be registered with the peer (AddState) before peer.Join: the join's full-state exchange is dropped for unregistered states (AM.Gossip.unknown_key_inert)"])
+        ++ [.tag "fact:app-setup-order"])
+  | ["prejoin"], [seen] =>
+    -- a joining instance's own queued updates reach every member (AM.Gossip.broadcast_routed_once): joining must not drop them
+    let (c, n) := frac ((kv [seen] "seen").getD "0/1")
+    let pf := if c ≠ n then
+      [Msg.propfail "broadcast_routed_once" "queued-update-lost-at-join" s!"a small update queued on an instance before it joined was merged by {c} of {n} nodes"] else []
+    ({ σ with n := σ.n + 1 }, pf ++ [.tag "prejoin"])
   | ["join"], [has, _members] =>
     let (c, n) := frac ((kv [has] "has").getD "0/1")
     let pf := if c ≠ n then [Msg.propfail "full_state_superset" "join-incomplete" s!"joiner holds {c} of {n} updates"] else []
